@@ -27,7 +27,31 @@ EXPLANATION = (
 )
 
 
+def union_find_contract(ctx: Ctx):
+    """kruskal is correct exactly as far as UnionFind is: `union` must merge whole components and say so.  C20 states
+    the class's obligations field by field (who writes parent / rank / count, what the constructor sets up, union by
+    rank); they count here as well."""
+    import importlib
+
+    from sa.report import run_module
+
+    mod = importlib.import_module("checks.c20")
+    sub = Ctx("C20", ctx.repo, "quick")
+    run_module(mod, sub)
+    if sub.aborted:
+        ctx.step_aborts.append(f"[C20] {sub.aborted}")
+    n = 0
+    for o in sub.obs:
+        if "-G" in o.oid or o.severity != "violation" or not o.func.startswith("UnionFind"):
+            continue
+        n += 1
+        ob_ = ctx.ob("C13-O3", o.rule, None, f"[{o.oid}] {o.construct}", o.ok, (o.detail + " - kruskal accepts an edge exactly when union() says it merged two components") if not o.ok else "", rel=o.rel, fname=o.func)
+        ob_.lineno = o.lineno
+    ctx.floor("obligations on UnionFind (from C20)", n, 10)
+
+
 def run(ctx: Ctx):
+    ctx.step(union_find_contract)
     k = ctx.func("mst", "kruskal")
     # the scan: every loop that offers edges to union-find, in kruskal itself or in a closure of it
     parents = {}
@@ -364,7 +388,15 @@ def _t_prim_copies_graph(tree):
     g.body.insert(k, M.stmts("graph = dict(graph)")[0])
 
 
+def _v_rank_bytes_union_by_size(tree):
+    g = M.find_func(tree, "UnionFind.__init__")
+    M.replace_stmt(g, lambda s: M.src_is(s, "self._rank = [0] * n"), M.stmts("self._rank = bytearray(n)"))
+    u = M.find_func(tree, "UnionFind.union")
+    M.replace_stmt(u, lambda s: isinstance(s, ast.If) and M.src_is(s.test, "self._rank[rx] == self._rank[ry]"), M.stmts("self._rank[rx] += self._rank[ry] + 1"))
+
+
 VARIANTS = [
+    M.Variant("ranks kept in a bytearray and grown by subtree size: union raises beyond 256 elements (seed C13-V)", "solvor/utils/data_structures.py", _v_rank_bytes_union_by_size, "C13-O3"),
     M.Variant("prim drops keys with an empty adjacency before anything else (seed C13-O)", MS, _v_prim_drops_isolated_keys, "C13-G15"),
     M.Variant("twin: prim works on a dict() copy of the graph", MS, _t_prim_copies_graph, None),
 
